@@ -765,8 +765,18 @@ func bodyC08(s *Sim) {
 		}
 		s.userAnnotate(def.NS, def.Name, edsv1.ExtendedDaemonSetCanaryValidAnnotationKey, "-")
 		s.userAnnotate(def.NS, def.Name, edsv1.ExtendedDaemonSetCanaryUnpausedAnnotationKey, "-")
-		how := pick(r, "annotation", "cli", "auto", "auto")
+		how := pick(r, "annotation", "cli", "auto", "auto", "repause", "repause")
 		switch how {
+		case "repause":
+			// paused, unpaused, then paused again: the replica set now carries Canary-Paused=False
+			s.userAnnotate(def.NS, def.Name, edsv1.ExtendedDaemonSetCanaryPausedAnnotationKey, "-")
+			s.RunCLI("canary-pause", key)
+			s.Round(r)
+			s.Round(r)
+			s.RunCLI("canary-unpause", key)
+			s.Round(r)
+			s.Round(r)
+			s.RunCLI("canary-pause", key)
 		case "annotation":
 			s.userAnnotate(def.NS, def.Name, edsv1.ExtendedDaemonSetCanaryPausedAnnotationKey, "true")
 		case "cli":
@@ -889,7 +899,7 @@ func bodyC08(s *Sim) {
 
 func init() {
 	register(&Profile{Name: "C08", Decide: []string{"C08"}, Quick: 1500, Thorough: 80000, Gen: genC08, Body: bodyC08,
-		NonVacuous: []string{"C08.paused-or-frozen-sync", "C08.paused-canary-sync", "C08.unpause", "C08.hold-ru-paused", "C08.hold-frozen", "C08.paused-wait-auto", "C08.paused-wait-cli", "C08.paused-wait-annotation"}, Chunk: 50,
+		NonVacuous: []string{"C08.paused-or-frozen-sync", "C08.paused-canary-sync", "C08.unpause", "C08.hold-ru-paused", "C08.hold-frozen", "C08.paused-wait-auto", "C08.paused-wait-cli", "C08.paused-wait-annotation", "C08.paused-wait-repause"}, Chunk: 50,
 		Rule: "Rollout states reached by seeded history with every combination and toggling order of the rolling-update-paused, rollout-frozen, canary-paused and canary-unpaused annotations (user edits and kubectl-eds commands); per-sync monitors judge what a sync may create or delete while they are set; then one of: the rolling update is held paused (empty eligible nodes must still get a pod), held frozen, or a paused canary loses some of its pods and is unpaused (it must resume); finally all holds are lifted and the rollout must complete within the convergence bound. " + histRule})
 }
 
